@@ -813,3 +813,406 @@ Theorem life_reachable ivl ops :
   0 < ivl -> hist_ok2 0 (init ivl) ops ->
   MarketInv (last_epoch 0 ops) (run (init ivl) ops) /\ Life (run (init ivl) ops).
 Proof. intros Hi H. apply life_run; [apply invc_init|now apply life_init|exact H]. Qed.
+
+(* ------------------------------------------------------------------------------------------ *)
+(* the clauses of C08 *)
+Theorem published_once_until_start now st e id p :
+  MarketInv now st -> Life st -> now <= e -> last_cron st < e ->
+  proposals st !! id = Some p -> e <= p_start p -> In p (pending st).
+Proof. intros I Hl Hn Hlc Hp He. eapply pending_complete; eauto. Qed.
+
+Theorem pending_unique st id1 id2 p :
+  Life st -> proposals st !! id1 = Some p -> proposals st !! id2 = Some p -> id1 = id2.
+Proof. intros Hl. exact (lf_uniq _ _ _ _ _ _ _ Hl id1 id2 p). Qed.
+
+(* an identical proposal is rejected while the first one can still be re-published *)
+Theorem duplicate_rejected now st epoch deals id d :
+  MarketInv now st -> Life st -> now <= epoch -> last_cron st < epoch ->
+  proposals st !! id = Some (d_prop d) ->
+  let acc := pub_filter st (p_provider (d_prop (hd d deals))) epoch (mkPacc [] [] ∅ 0) 0 deals in
+  ~ In (d_prop d) (pa_valid acc).
+Proof.
+  intros I Hl Hn Hlc Hp acc Hin.
+  assert (Hfr : fresh_ps st epoch (pa_valid acc)).
+  { apply pub_filter_fresh. split; [constructor|intros p []]. }
+  destruct Hfr as [_ Hall]. destruct (Hall _ Hin) as [H1 H2].
+  apply H1. eapply published_once_until_start; eauto.
+Qed.
+
+(* -- deal ids -- *)
+Fixpoint zseq (start : Z) (n : nat) : list Z :=
+  match n with O => [] | Datatypes.S n' => start :: zseq (start + 1) n' end.
+
+Lemma zseq_app s n : zseq s (n + 1) = zseq s n ++ [s + Z.of_nat n].
+Proof.
+  revert s. induction n as [|n IH]; intros s; cbn [zseq Nat.add]; [cbn; f_equal; f_equal; lia|].
+  rewrite IH. cbn [app]. f_equal. f_equal. f_equal. lia.
+Qed.
+
+Lemma zseq_length s n : length (zseq s n) = n.
+Proof. revert s. induction n as [|n IH]; intros s; cbn; [reflexivity|now rewrite IH]. Qed.
+
+Lemma pub_commit_one_id st p st' id :
+  pub_commit_one st p = Ok st' id -> id = next_id st /\ next_id st' = next_id st + 1.
+Proof.
+  unfold pub_commit_one. destruct (lock_balances st p) as [st1 u|] eqn:Hl; [|discriminate]. cbn [bind].
+  apply lock_balances_inv in Hl as (_ & _ & _ & _ & _ & _ & [] & _). intros [= <- <-]. cbn. split; lia.
+Qed.
+
+Lemma pub_commit_ids ps : forall st ids st' ids',
+  pub_commit st ps ids = Ok st' ids' ->
+  ids' = ids ++ zseq (next_id st) (length ps) /\ next_id st' = next_id st + Z.of_nat (length ps).
+Proof.
+  induction ps as [|p ps IH]; intros st ids st' ids'; cbn [pub_commit].
+  - intros [= <- <-]. cbn. rewrite app_nil_r. split; [reflexivity|lia].
+  - destruct (pub_commit_one st p) as [st1 id|] eqn:H1; [|discriminate]. cbn [bind].
+    apply pub_commit_one_id in H1 as [-> Hn]. intros H. apply IH in H as [-> Hn'].
+    rewrite Hn in *. cbn [length zseq]. rewrite <- app_assoc. cbn [app]. split; [reflexivity|lia].
+Qed.
+
+Lemma maybe_lock_err st a amt s c : maybe_lock_balance st a amt = Err s c -> c <> OK.
+Proof.
+  unfold maybe_lock_balance. destruct (amt <? 0); [intros [= _ <-]; discriminate|].
+  destruct (_ <? _); [intros [= _ <-]; discriminate|].
+  destruct (bt_add _ _ _); [discriminate|intros [= _ <-]; discriminate].
+Qed.
+
+Lemma pub_commit_one_err st p s c : pub_commit_one st p = Err s c -> c <> OK.
+Proof.
+  unfold pub_commit_one, lock_balances.
+  destruct (maybe_lock_balance st (p_client p) (client_req p)) as [st1 u|s1 c1] eqn:H1; cbn [bind].
+  - destruct (maybe_lock_balance st1 (p_provider p) (p_pcoll p)) as [st2 u2|s2 c2] eqn:H2; cbn [bind].
+    + discriminate.
+    + intros [= _ <-]. eapply maybe_lock_err; eauto.
+  - intros [= _ <-]. eapply maybe_lock_err; eauto.
+Qed.
+
+Lemma pub_commit_err ps : forall st ids s c, pub_commit st ps ids = Err s c -> c <> OK.
+Proof.
+  induction ps as [|p ps IH]; intros st ids s c; cbn [pub_commit]; [discriminate|].
+  destruct (pub_commit_one st p) as [st1 id|s1 c1] eqn:H1; cbn [bind]; [eauto|].
+  intros [= _ <-]. eapply pub_commit_one_err; eauto.
+Qed.
+
+(* PublishStorageDeals returns exactly the ids next_id, next_id+1, ... and advances next_id past them *)
+Theorem publish_ids st caller epoch t deals st' r :
+  publish st caller epoch t deals = (st', OK :: r) ->
+  exists n idx, r = Z.of_nat n :: zseq (next_id st) n ++ Z.of_nat (length idx) :: idx /\
+                next_id st' = next_id st + Z.of_nat n /\ (0 < n)%nat.
+Proof.
+  unfold publish. destruct deals as [|d0 rest]; [discriminate|].
+  destruct t as [| |o w cs]; [discriminate|discriminate|].
+  destruct (negb (zmem caller (cs ++ [w; o]))); [discriminate|].
+  set (acc := pub_filter st _ epoch _ 0 _).
+  destruct (pa_valid acc) as [|p0 ps] eqn:Hv; [discriminate|]. rewrite <- Hv.
+  destruct (pub_commit st (pa_valid acc) []) as [st1 ids|s1 c1] eqn:Hc;
+    [|intros [= _ H _]; apply pub_commit_err in Hc; contradiction].
+  apply pub_commit_ids in Hc as [-> Hn]. cbn [app]. rewrite zseq_length. intros [= <- <-].
+  exists (length (pa_valid acc)), (pa_idx acc). split; [reflexivity|].
+  split; [exact Hn|]. rewrite Hv. cbn. lia.
+Qed.
+
+(* -- a deal is accepted only if authenticated and funded (cumulatively, within the batch) -- *)
+Definition cl_of (ps : list proposal) (c : Z) : Z :=
+  fold_right (fun q acc => (if p_client q =? c then client_req q else 0) + acc) 0 ps.
+Definition pl_of (ps : list proposal) : Z := fold_right (fun q acc => p_pcoll q + acc) 0 ps.
+
+Lemma cl_of_snoc ps p c : cl_of (ps ++ [p]) c = cl_of ps c + (if p_client p =? c then client_req p else 0).
+Proof. induction ps as [|q ps IH]; cbn; [lia|]. unfold cl_of in IH. rewrite IH. lia. Qed.
+Lemma pl_of_snoc ps p : pl_of (ps ++ [p]) = pl_of ps + p_pcoll p.
+Proof. induction ps as [|q ps IH]; cbn; [lia|]. unfold pl_of in IH. rewrite IH. lia. Qed.
+
+(* the accepted deals of a batch, in order: each comes from a deal of the message that passed the
+   stateless validation (signature authenticated by the client, bounds), names the batch's provider, is
+   not pending and not a duplicate of an earlier accepted deal of the message, and both parties'
+   unlocked escrow covers it ON TOP of the earlier accepted deals of the same message *)
+Inductive AccOK (st : state) (prov epoch : Z) (deals : list pdeal) : list proposal -> Prop :=
+| acc_nil : AccOK st prov epoch deals []
+| acc_snoc ps d :
+    AccOK st prov epoch deals ps -> In d deals ->
+    deal_valid epoch d = true -> d_sig_ok d = true -> p_provider (d_prop d) = prov ->
+    L st (p_client (d_prop d)) + (cl_of ps (p_client (d_prop d)) + client_req (d_prop d))
+      <= E st (p_client (d_prop d)) ->
+    L st prov + (pl_of ps + p_pcoll (d_prop d)) <= E st prov ->
+    ~ In (d_prop d) (pending st) -> ~ In (d_prop d) ps ->
+    AccOK st prov epoch deals (ps ++ [d_prop d]).
+
+Definition acc_sums (acc : pacc) : Prop :=
+  (forall c, bt_get (pa_cl acc) c = cl_of (pa_valid acc) c) /\ pa_pl acc = pl_of (pa_valid acc).
+
+Lemma pub_filter_one_acc st prov epoch deals acc di d :
+  In d deals -> AccOK st prov epoch deals (pa_valid acc) -> acc_sums acc ->
+  AccOK st prov epoch deals (pa_valid (pub_filter_one st prov epoch acc di d)) /\
+  acc_sums (pub_filter_one st prov epoch acc di d).
+Proof.
+  intros Hin HA [Hc Hp]. unfold pub_filter_one.
+  assert (Hsame : AccOK st prov epoch deals (pa_valid acc) /\ acc_sums acc) by (split; [exact HA|split; assumption]).
+  destruct (negb (deal_valid epoch d)) eqn:Ev; [exact Hsame|]. zb.
+  destruct (negb (p_provider (d_prop d) =? prov)) eqn:Epr; [exact Hsame|]. zb.
+  destruct (negb (balance_covered st (p_client (d_prop d)) _)) eqn:Ec; [exact Hsame|]. zb.
+  destruct (negb (balance_covered st prov _)) eqn:Eb; [exact Hsame|]. zb.
+  destruct (pend_has (pending st) (d_prop d) || pend_has (pa_valid acc) (d_prop d)) eqn:Ed; [exact Hsame|].
+  destruct (p_verified (d_prop d)); [exact Hsame|].
+  apply orb_false_iff in Ed as [E1 E2]. unfold balance_covered in Ec, Eb. zb.
+  cbn [pa_valid pa_cl pa_pl]. split.
+  - apply acc_snoc; auto.
+    + unfold deal_valid in Ev. zb. assumption.
+    + rewrite <- Hc. exact Ec.
+    + rewrite <- Hp. exact Eb.
+    + intros H. apply pend_has_In in H. congruence.
+    + intros H. apply pend_has_In in H. congruence.
+  - unfold acc_sums. cbn [pa_valid pa_cl pa_pl]. split.
+    + intros c. rewrite cl_of_snoc. unfold bt_get at 1. destruct (Z.eq_dec c (p_client (d_prop d))) as [->|Hne].
+      * rewrite lookup_insert. cbn. rewrite Z.eqb_refl, <- Hc. reflexivity.
+      * rewrite lookup_insert_ne by congruence. fold (bt_get (pa_cl acc) c). rewrite Hc.
+        destruct (p_client (d_prop d) =? c) eqn:E; zb; [congruence|lia].
+    + rewrite pl_of_snoc, Hp. reflexivity.
+Qed.
+
+Lemma pub_filter_acc st prov epoch deals ds : forall acc di,
+  (forall d, In d ds -> In d deals) -> AccOK st prov epoch deals (pa_valid acc) -> acc_sums acc ->
+  AccOK st prov epoch deals (pa_valid (pub_filter st prov epoch acc di ds)).
+Proof.
+  induction ds as [|d ds IH]; intros acc di Hsub HA Hs; cbn [pub_filter]; [exact HA|].
+  destruct (pub_filter_one_acc st prov epoch deals acc di d (Hsub d (or_introl eq_refl)) HA Hs) as [HA' Hs'].
+  apply IH; auto. intros x Hx. apply Hsub. now right.
+Qed.
+
+Theorem publish_requires_auth_and_funds st prov epoch deals :
+  AccOK st prov epoch deals (pa_valid (pub_filter st prov epoch (mkPacc [] [] ∅ 0) 0 deals)).
+Proof.
+  apply pub_filter_acc; auto; [constructor|]. split; [intros c; cbn; apply bt_get_empty|reflexivity].
+Qed.
+
+(* ... and those are exactly the proposals stored by the message, under consecutive ids *)
+Lemma pub_commit_stores ps : forall st ids st' ids',
+  pub_commit st ps ids = Ok st' ids' ->
+  forall i p, nth_error ps i = Some p -> proposals st' !! (next_id st + Z.of_nat i) = Some p.
+Proof.
+  induction ps as [|p ps IH]; intros st ids st' ids' H i q Hi; [destruct i; discriminate|].
+  cbn [pub_commit] in H.
+  destruct (pub_commit_one st p) as [st1 id|] eqn:H1; [|discriminate]. cbn [bind] in H.
+  pose proof (pub_commit_one_id _ _ _ _ H1) as [-> Hn].
+  assert (Hst1 : proposals st1 !! next_id st = Some p).
+  { unfold pub_commit_one in H1. destruct (lock_balances st p) as [s1 u|] eqn:Hl; [|discriminate]. cbn [bind] in H1.
+    apply lock_balances_inv in Hl as (_ & _ & _ & _ & _ & _ & [] & _). injection H1 as <-. cbn.
+    rewrite f_next. apply lookup_insert. }
+  assert (Hkeep : forall ps st ids st' ids', pub_commit st ps ids = Ok st' ids' ->
+            forall k v, k < next_id st -> proposals st !! k = Some v -> proposals st' !! k = Some v).
+  { clear. induction ps as [|p ps IH]; intros st ids st' ids' H k v Hk Hv; cbn [pub_commit] in H.
+    - injection H as <- _. exact Hv.
+    - destruct (pub_commit_one st p) as [st1 id|] eqn:H1; [|discriminate]. cbn [bind] in H.
+      pose proof (pub_commit_one_id _ _ _ _ H1) as [-> Hn].
+      apply (IH _ _ _ _ H k v); [lia|].
+      unfold pub_commit_one in H1. destruct (lock_balances st p) as [s1 u|] eqn:Hl; [|discriminate]. cbn [bind] in H1.
+      apply lock_balances_inv in Hl as (_ & _ & _ & _ & _ & _ & [] & _). injection H1 as <-. cbn.
+      rewrite f_next, f_prop. rewrite lookup_insert_ne by lia. exact Hv. }
+  destruct i as [|i]; cbn in Hi.
+  - injection Hi as <-. rewrite Z.add_0_r. apply (Hkeep _ _ _ _ _ H); [lia|exact Hst1].
+  - replace (next_id st + Z.of_nat (Datatypes.S i)) with (next_id st1 + Z.of_nat i) by lia.
+    eapply IH; eauto.
+Qed.
+
+(* -- activation -- *)
+Theorem activation_guard st id caller expiry epoch p :
+  preactivate st id caller expiry epoch = inl p ->
+  proposals st !! id = Some p /\ states st !! id = None /\ pend_has (pending st) p = true /\
+  p_provider p = caller /\ epoch <= p_start p /\ p_end p <= expiry.
+Proof. exact (preactivate_inl st id caller expiry epoch p). Qed.
+
+Theorem activation_at_most_once st id caller expiry epoch ds :
+  states st !! id = Some ds -> exists c, preactivate st id caller expiry epoch = inr c.
+Proof.
+  intros Hs. destruct (preactivate st id caller expiry epoch) as [p|c] eqn:H; [|eauto].
+  apply preactivate_inl in H as (_ & H & _). congruence.
+Qed.
+
+Theorem removed_deal_not_activated st id caller expiry epoch :
+  proposals st !! id = None ->
+  preactivate st id caller expiry epoch = inr (if id <? next_id st then EX_DEAL_EXPIRED else NOT_FOUND).
+Proof. intros H. unfold preactivate, get_proposal. now rewrite H. Qed.
+
+(* every deal state written by BatchActivateDeals passed preactivate in this message, for its own
+   sector's expiry, and no id is written twice in one message *)
+Definition act_ok (st : state) (caller epoch : Z) (sectors : list (Z * Z * list Z)) (x : Z * dstate) : Prop :=
+  exists sector expiry ids p, In (sector, expiry, ids) sectors /\ In (fst x) ids /\
+    preactivate st (fst x) caller expiry epoch = inl p /\ snd x = fresh_state sector epoch.
+
+Lemma has_dup_false l : has_dup l = false -> NoDup l.
+Proof.
+  induction l as [|x l IH]; cbn; [constructor|]. intros H. apply orb_false_iff in H as [H1 H2].
+  constructor; [|auto]. intros Hin. unfold zmem in H1.
+  assert (existsb (Z.eqb x) l = true) by (apply existsb_exists; exists x; split; [exact Hin|apply Z.eqb_refl]).
+  congruence.
+Qed.
+
+Lemma zmem_In x l : zmem x l = true <-> In x l.
+Proof.
+  unfold zmem. rewrite existsb_exists. split.
+  - intros (y & Hy & E). zb. now subst.
+  - intros H. exists x. split; [exact H|apply Z.eqb_refl].
+Qed.
+
+Lemma preact_all_notin st activated caller expiry epoch ids : forall ps,
+  preact_all st activated caller expiry epoch ids = inl ps -> forall id, In id ids -> ~ In id activated.
+Proof.
+  induction ids as [|i ids IH]; intros ps; cbn [preact_all]; [intros _ id []|].
+  destruct (zmem i activated) eqn:Ez; [discriminate|].
+  destruct (preactivate st i caller expiry epoch) as [p|]; [|discriminate].
+  destruct (preact_all st activated caller expiry epoch ids) as [qs|] eqn:H2; [|discriminate].
+  intros _ id [<-|Hin]; [|eauto]. intros H. apply zmem_In in H. congruence.
+Qed.
+
+Lemma act_sector_ok st caller epoch sectors acc si s :
+  In s sectors ->
+  Forall (act_ok st caller epoch sectors) (aa_states acc) /\ NoDup (aa_activated acc) /\
+    map fst (aa_states acc) = aa_activated acc ->
+  Forall (act_ok st caller epoch sectors) (aa_states (act_sector st caller epoch acc si s)) /\
+    NoDup (aa_activated (act_sector st caller epoch acc si s)) /\
+    map fst (aa_states (act_sector st caller epoch acc si s)) = aa_activated (act_sector st caller epoch acc si s).
+Proof.
+  intros Hs (H1 & H2 & H3). unfold act_sector. destruct s as [[sector expiry] ids].
+  destruct (has_dup ids) eqn:Hd; [auto|].
+  destruct (preact_all st (aa_activated acc) caller expiry epoch ids) as [ps|] eqn:Hp; [|auto].
+  cbn [aa_states aa_activated]. split; [|split].
+  - apply Forall_app. split; [exact H1|].
+    pose proof (preact_all_inl _ _ _ _ _ _ _ Hp) as Hall. rewrite Forall_forall in *. intros x Hx.
+    apply in_map_iff in Hx as (id & <- & Hid). destruct (Hall id Hid) as [p Hpre].
+    exists sector, expiry, ids, p. cbn. auto.
+  - apply has_dup_false in Hd. pose proof (preact_all_notin _ _ _ _ _ _ _ Hp) as Hn.
+    clear - H2 Hd Hn. induction H2 as [|a l Ha Hl IH]; cbn; [exact Hd|].
+    constructor.
+    + rewrite in_app_iff. intros [H|H]; [contradiction|]. apply (Hn a H). now left.
+    + apply IH. intros id Hid Hin. apply (Hn id Hid). now right.
+  - rewrite map_app, map_map, H3. cbn. now rewrite map_id.
+Qed.
+
+Theorem activation_once_per_message st caller epoch sectors :
+  let acc := act_sectors st caller epoch (mkAacc [] [] [] [] 0 []) 0 sectors in
+  Forall (act_ok st caller epoch sectors) (aa_states acc) /\ NoDup (map fst (aa_states acc)).
+Proof.
+  intros acc.
+  assert (H : forall l acc0 si, (forall s, In s l -> In s sectors) ->
+            Forall (act_ok st caller epoch sectors) (aa_states acc0) /\ NoDup (aa_activated acc0) /\
+              map fst (aa_states acc0) = aa_activated acc0 ->
+            let a := act_sectors st caller epoch acc0 si l in
+            Forall (act_ok st caller epoch sectors) (aa_states a) /\ NoDup (aa_activated a) /\
+              map fst (aa_states a) = aa_activated a).
+  { induction l as [|s l IH]; intros acc0 si Hsub H0; cbn [act_sectors]; [exact H0|].
+    apply IH; [intros x Hx; apply Hsub; now right|].
+    apply act_sector_ok; [apply Hsub; now left|exact H0]. }
+  destruct (H sectors (mkAacc [] [] [] [] 0 []) 0 (fun s Hs => Hs)) as (A1 & A2 & A3).
+  { cbn. split; [constructor|split; [constructor|reflexivity]]. }
+  split; [exact A1|]. unfold acc. rewrite A3. exact A2.
+Qed.
+
+(* -- a proposal that was not activated by its start epoch -- *)
+Theorem timeout_cleanup epoch owed st id p :
+  InvS epoch owed (states st) st -> proposals st !! id = Some p -> states st !! id = None ->
+  p_start p <= epoch -> pend_has (pending st) p = true ->
+  exists st', get_active_deal_or_process_timeout st epoch id p = Ok st' (ProposalExpired (p_pcoll p)) /\
+    proposals st' = delete id (proposals st) /\ pending st' = pend_del (pending st) p /\
+    InvS epoch (owed + p_pcoll p) (states st) st'.
+Proof.
+  intros I Hp Hs He Hpe.
+  pose proof (gadt_spec epoch owed (states st) st id p I Hp eq_refl) as G.
+  unfold get_active_deal_or_process_timeout in *. rewrite Hs in *.
+  destruct (epoch <? p_start p) eqn:Es; zb; [lia|].
+  destruct (timed_out_spec _ _ _ _ _ _ I Hp Hs) as (st1 & R1 & F1 & P1).
+  rewrite R1 in *. cbn [bind] in *.
+  pose proof F1 as [_ _ _ _ _ _ Ffr]. destruct Ffr.
+  unfold remove_proposal in *. rewrite f_prop, Hp in *. cbn [bind pending set_proposals] in *.
+  rewrite P1, Hpe in *. cbn [negb] in *.
+  destruct G as (_ & _ & _ & G & _ & GP & _ & Gpe & _).
+  eexists. split; [reflexivity|]. auto.
+Qed.
+
+(* -- next_id never decreases; only PublishStorageDeals advances it -- *)
+Lemma settle_loop_next epoch ids : forall st a i st' a',
+  0 <= epoch -> NoDup ids ->
+  settle_inv epoch st a -> (forall k, In k ids -> ~ In k (map fst (sa_new a))) ->
+  settle_loop epoch st a i ids = Ok st' a' -> next_id st' = next_id st.
+Proof.
+  induction ids as [|id ids IH]; intros st a i st' a' He Hnd I Hnew; cbn [settle_loop].
+  - now intros [= <- <-].
+  - destruct (settle_one epoch st a i id) as [st1 a1|] eqn:H1; [|discriminate]. cbn [bind].
+    inversion Hnd; subst.
+    destruct (settle_one_inv _ _ _ _ _ _ _ He I (Hnew id (or_introl eq_refl)) H1) as [I1 Hk].
+    destruct (settle_one_lev epoch 0 _ _ _ _ _ _ He I (Hnew id (or_introl eq_refl)) H1) as (_ & _ & _ & Hn & _).
+    intros Hrest. rewrite <- Hn. eapply IH; eauto.
+    intros k Hin Hk1. destruct (Hk k Hk1) as [Hk2| ->]; [|contradiction].
+    apply (Hnew k); [now right|exact Hk2].
+Qed.
+
+Lemma term_loop_next epoch snap caller ids : forall st total st' total',
+  0 <= epoch -> term_inv epoch snap st total ->
+  term_loop snap caller epoch st total ids = Ok st' total' -> next_id st' = next_id st.
+Proof.
+  induction ids as [|id ids IH]; intros st total st' total' He I; cbn [term_loop].
+  - now intros [= <- <-].
+  - destruct (term_one snap caller epoch st id) as [st1 s|] eqn:H1; [|discriminate]. cbn [bind].
+    pose proof (term_one_inv _ _ _ _ _ _ _ _ He I H1) as I1.
+    destruct (term_one_lev epoch 0 _ _ _ _ _ _ _ He I H1) as (_ & _ & _ & Hn & _).
+    intros Hrest. rewrite <- Hn. eapply IH; eauto.
+Qed.
+
+Theorem next_id_step now st o :
+  MarketInv now st -> Life st -> now <= op_epoch o -> wf_op o -> life_op st o ->
+  next_id st <= next_id (fst (step st o)) /\
+  ((forall c e t ds, o <> Publish c e t ds) -> next_id (fst (step st o)) = next_id st).
+Proof.
+  intros I Hl Hn [He Hw] Hlc. pose proof (invc_now_mono _ _ _ _ _ _ _ _ _ _ _ _ _ I Hn) as I'.
+  assert (Hsame : forall st', next_id st' = next_id st ->
+            next_id st <= next_id st' /\ ((forall c e t ds, o <> Publish c e t ds) -> next_id st' = next_id st)).
+  { intros st' ->. split; [lia|auto]. }
+  destruct o; cbn [step op_epoch] in *.
+  - apply Hsame. unfold add_balance. destruct (value <=? 0); [reflexivity|].
+    destruct t; [reflexivity| |]; destruct (bt_add _ _ _); reflexivity.
+  - apply Hsame. unfold withdraw_balance. destruct (amount <? 0); [reflexivity|].
+    destruct (escrow_address who t) as [[rc ap]|]; [|reflexivity].
+    destruct (negb (zmem caller ap)); [reflexivity|].
+    destruct (bt_sub_with_min _ _ _ _) as [[e' ex]|]; [|reflexivity].
+    destruct (balance st <? ex); reflexivity.
+  - split; [|intros Hne; exfalso; exact (Hne caller epoch t deals eq_refl)].
+    destruct (publish st caller epoch t deals) as [st' [|c r]] eqn:Hp.
+    + unfold publish in Hp. destruct deals; [injection Hp as <- _; cbn; lia|].
+      destruct t as [| |o w cs]; [injection Hp as <- _; cbn; lia|injection Hp as <- _; cbn; lia|].
+      destruct (negb _); [injection Hp as <- _; cbn; lia|].
+      destruct (pa_valid _); [injection Hp as <- _; cbn; lia|].
+      destruct (pub_commit _ _ _); discriminate.
+    + destruct (Z.eq_dec c OK) as [->|Hc].
+      * apply publish_ids in Hp as (n & idx & _ & Hnn & _). cbn [fst]. lia.
+      * cbn [fst]. unfold publish in Hp. destruct deals; [injection Hp as <- _; lia|].
+        destruct t as [| |o w cs]; [injection Hp as <- _; lia|injection Hp as <- _; lia|].
+        destruct (negb _); [injection Hp as <- _; lia|].
+        destruct (pa_valid _); [injection Hp as <- _; lia|].
+        destruct (pub_commit _ _ _); [injection Hp as _ H; unfold OK in *; congruence|injection Hp as <- _; lia].
+  - apply Hsame. unfold batch_activate. destruct (negb is_miner); reflexivity.
+  - apply Hsame. unfold sector_content_changed. destruct (negb is_miner); [reflexivity|].
+    destruct (fold_left _ _ _) as [[acc secs] out]. reflexivity.
+  - subst. apply Hsame. unfold terminate. destruct (negb is_miner); [reflexivity|].
+    destruct (pop_sector_deals _ _ _) as [ps' ids].
+    destruct (term_loop st caller epoch (set_psectors st ps') 0 ids) as [st1 total|] eqn:Hlp; [|reflexivity].
+    assert (I0 : term_inv epoch st (set_psectors st ps') 0).
+    { split; [exact I'|]. intros id. right. split; reflexivity. }
+    pose proof (term_loop_next _ _ _ _ _ _ _ _ He I0 Hlp) as Hnn. cbn in Hnn.
+    destruct (0 <? total); [|exact Hnn]. destruct (balance st1 <? total); [reflexivity|exact Hnn].
+  - apply Hsame. unfold settle.
+    destruct (settle_loop epoch st _ 0 ids) as [st1 a|] eqn:Hlp; [|reflexivity].
+    pose proof (settle_loop_next epoch ids st (mkSacc [] 0 [] 0 [] []) 0 st1 a He Hw I' ltac:(intros k _ H; exact H) Hlp) as Hnn.
+    destruct (sa_slashed a =? 0); [exact Hnn|]. destruct (_ || _); [reflexivity|exact Hnn].
+  - apply Hsame. unfold cron_tick. destruct (negb _); [reflexivity|].
+    destruct (cron_loop epoch st _ _) as [st1 a|] eqn:Hlp; [|reflexivity].
+    assert (L0 : LifeL epoch st (states st)).
+    { destruct Hl as [Hp Hu Hq Ho Hnn Hi]. constructor; auto.
+      intros id p H1 H2 H3. pose proof (Hp id p H1 H2 H3). unfold life_op in Hlc. cbn in Hlc. lia. }
+    assert (Hdue : forall id p, In id (flat_map snd (due st epoch)) -> proposals st !! id = Some p ->
+                                p_start p <= epoch).
+    { intros id p Hin Hp. apply in_flat_map in Hin as ([e ids] & Hd & Hid). cbn in Hid.
+      apply due_In in Hd as [Hd1 Hd2].
+      pose proof (lf_ops _ _ _ _ _ _ _ Hl e ids id p Hd1 Hid Hp). lia. }
+    destruct (cron_loop_life epoch _ st (mkCracc 0 [] []) st1 a He I' L0 ltac:(intros x []) Hdue Hlp)
+      as (_ & _ & _ & _ & Hnn).
+    destruct (cr_slashed a =? 0); [exact Hnn|]. destruct (_ || _); [reflexivity|exact Hnn].
+  - apply Hsame. unfold get_balance. destruct (negb resolves); reflexivity.
+Qed.
